@@ -71,8 +71,8 @@ Proof.
     try apply b_plain; try (apply (b_plain x1 VNull));
     try (destruct x1; try exact I; apply pick_plain);
     try (destruct x1; try exact I; destruct x2; try exact I; pl).
-  all: try (destruct x1; exact I).
-  all: exact VNull.
+  all: try (destruct x1; try exact I; unfold ferr; pl).
+  all: try exact VNull.
 Qed.
 
 Lemma run_host_plain h xs : okish plain (run_host h xs).
